@@ -6,13 +6,13 @@ CHECK = {'pkgs': ['core/sigagg'],
  'level': 'exploration',
  'engine': 'enumx',
  'technique': 'small-scope exhaustive enumeration against the real sigagg.Aggregator with the real verifier (sigagg.NewVerifier), real BLS threshold '
-              'keys and every Eth2SignedData type, in four dimensions: (1) single calls on a fresh Aggregator: partial-signature lists (share '
+              'keys and every Eth2SignedData type, in five dimensions: (1) single calls on a fresh Aggregator: partial-signature lists (share '
               'subsets x list orders x corruption patterns x validators per call x map iteration order); (2) operation sequences: every '
               'sequence of 2 (thorough: 3) calls from an explicit call alphabet on ONE long-lived Aggregator + verifier instance; (3) '
               'environment faults: the eth2 client given to the verifier is a wrapper that serves the beaconmock answers and can fail any '
               'request of the verification path at its k-th invocation - a counting run discovers the requests of a call, then every fault '
               'point x fault mode (thorough: every pair) is enumerated; (4) both combined (one faulted and one healthy call on the same '
-              'instance, either order). Published objects are re-verified independently of the code under test',
+              'instance, either order); (5) batch size: calls carrying N = 3..64 validators (own threshold key each) with the corrupt validator at every position of the map iteration order of the call. Published objects are re-verified independently of the code under test',
  'claim': 'cluster (n,t)=(4,3), 2 validators with independent threshold keys and different payloads. Every core.Eth2SignedData type '
           '(attestation, full/blinded proposal, randao, exit, builder registration, beacon committee selection, aggregate-and-proof plain and '
           'versioned, sync message, signed contribution-and-proof, sync committee selection, contribution-and-proof selection proof; quick: one '
@@ -43,6 +43,12 @@ CHECK = {'pkgs': ['core/sigagg'],
           'every single fault point x mode, thorough: also every pair of fault points x mode x mode. '
           'DIMENSION 4, combined: sequences of 2 calls where exactly one call carries one fault (every fault point x mode of that call); quick: the faulted call is the valid call of X and the other '
           'ranges over the representative alphabet, thorough: both range over the representative alphabet; both orders. '
+          'DIMENSION 5, batch size (fresh Aggregator per call, share list [1,2,3] per validator): N validators per call for N in {3,4,5,8,9,16,17,32,33} (thorough: also 64), 64 independent '
+          'threshold keys generated once per process. Per N: the all-valid call; the call in which exactly one validator\'s list is corrupt (one signature over other content, one share '
+          'of another validator, fewer than t partials; thorough also: the neighbour validator\'s complete valid list) with that validator at EVERY position 0..N-1 of the iteration order of the map handed '
+          'to Aggregate (the harness learns the order from a probe map built with the same keys under the same pinned rotation and hash seed, checks it on the real map and cross-checks it against the number of '
+          'Domain requests made before the call was abandoned); for N<=8 under every rotation 0..N-1 of the insertion order, above 8 (hash-ordered table) under one pinned start offset; two corrupt validators '
+          '(every pair of positions x 3x3 kinds, each rotation) for N<=5 (thorough: N<=9). Additional oracle for the all-valid call: a subscriber that is called is handed ALL N validators (a call publishes for all of its validators or for none). '
           'ORACLE, applied to EVERY call of every dimension: everything handed to '
           'either subscriber verifies (tbls.Verify, harness-side domain/epoch table, signing root composed in the harness) under the group key '
           'of its validator, belongs to a validator of that call and has the message root the honest partials of that call signed; if fewer than t valid distinct agreeing shares were supplied '
@@ -53,8 +59,8 @@ CHECK = {'pkgs': ['core/sigagg'],
             'epoch field; MessageRoot() of the published object is taken as its signed content; the fault wrapper models a failing / slow beacon node only by '
             'errors, an expired context and late answers - never by wrong answers',
  'rule': 'one evaluation = one case: dimension 1 one Aggregate call on a fresh Aggregator; dimension 2 one sequence of 2 or 3 calls on one instance; dimension 3 one call under one fault script; '
-         'dimension 4 one faulted + one healthy call on one instance (transitions = Aggregate calls). distinct = (dimension, type/version, corruption kind of the (last) call, list size, '
-         'validators per call, relation to the earlier calls, fault methods/modes, published/rejected pattern)',
+         'dimension 4 one faulted + one healthy call on one instance; dimension 5 one call with N validators (transitions = Aggregate calls). distinct = (dimension, type/version, corruption kind of the (last) call, list size, '
+         'validators per call, relation to the earlier calls, fault methods/modes, first/inner/last position of the corrupt validator, published/rejected pattern)',
  'budget_s': {'quick': 100, 'thorough': 1500}}
 CHECK["assumptions"] = ENUMX_ASSUME + [
     "a size-4 list with one corrupted partial still contains 3 valid distinct agreeing shares: publishing a valid aggregate for it is "
@@ -65,5 +71,8 @@ CHECK["assumptions"] = ENUMX_ASSUME + [
     "state kept in package-level variables would also be shared with the 'fresh instance' runs of the differential oracle (the per-call oracle does not depend on it)",
     "the differential oracle (verdict after a prefix == verdict on a fresh instance) is stricter than the statement in the direction published->rejected "
     "(the statement promises no liveness); it is reported under its own signature kind=history-dependent-verdict",
+    "batch dimension: that an all-valid call which publishes must publish all of its N validators is the all-or-nothing reading of the statement's second sentence; "
+    "an all-valid call that publishes nothing would only be counted (no liveness claim). Above 8 entries Go orders a map by hash: the order is whatever this process' hash "
+    "key gives under the pinned seed, every position of THAT order is enumerated; a replay in another process re-derives the order and places the corrupt validator at the recorded position",
     "fault scripts are positioned on the requests of the healthy counting run of the same call; a request that the code only makes under a fault (a retry) is served healthy",
 ]
